@@ -204,7 +204,9 @@ class Gate(dict):
         if self.name in CLIFFORD_GATES:
             return True
         elif self.name in {"RX", "RY", "RZ", "PHASE"}:
-            return isclose(self.parameter % (pi / 2), 0, abs_tol=abs_tol)
+            # Distance to the nearest multiple of pi/2: the remainder can also land just below pi/2
+            remainder = self.parameter % (pi / 2)
+            return isclose(remainder, 0, abs_tol=abs_tol) or isclose(remainder, pi / 2, abs_tol=abs_tol)
         else:
             return False
 
